@@ -93,9 +93,20 @@ fn set_loop_risk(s: &str) -> bool {
     false
 }
 
-fn agree(s: &str, a: &Value) -> bool {
+fn agree(model: &mut crate::model::Model, s: &str, a: &Value) -> bool {
+    // the textual simulation over-approximates: it also flags an `IN [` that the lenient grammar
+    // reads as part of a quoted phrase. When it flags the text, the Lean model of the lenient
+    // grammar decides (it is compared with `parse_query_lenient` on every generated string and
+    // reads the loop guard from the source): only a text on which the model predicts a tree is
+    // handed to the real parser in this process.
     if set_loop_risk(s) {
-        return false;
+        if s.len() > 1200 {
+            return false;
+        }
+        let ans = model.ask(&format!("C16 parsel {}", crate::model::hex(s.as_bytes())));
+        if !ans.starts_with("tree") {
+            return false;
+        }
     }
     matches!(lenient_tree(s), Some((l, 0)) if l == *a)
 }
@@ -407,11 +418,11 @@ fn apply_norm(n: Norm, s: &str, a: &Value) -> Option<(String, Value)> {
 }
 
 /// run the normalisers of `order` that are not in `skip`; stop as soon as the grammars agree
-fn normalise(s: &str, a: &Value, skip: Option<Norm>, only: Option<&[Norm]>) -> (bool, Vec<Norm>) {
+fn normalise(model: &mut crate::model::Model, s: &str, a: &Value, skip: Option<Norm>, only: Option<&[Norm]>) -> (bool, Vec<Norm>) {
     let mut text = s.to_string();
     let mut tree = a.clone();
     let mut applied = vec![];
-    if agree(&text, &tree) {
+    if agree(model, &text, &tree) {
         return (true, applied);
     }
     for n in NORMS {
@@ -427,7 +438,7 @@ fn normalise(s: &str, a: &Value, skip: Option<Norm>, only: Option<&[Norm]>) -> (
             text = t2;
             tree = a2;
             applied.push(*n);
-            if agree(&text, &tree) {
+            if agree(model, &text, &tree) {
                 return (true, applied);
             }
         }
@@ -436,7 +447,7 @@ fn normalise(s: &str, a: &Value, skip: Option<Norm>, only: Option<&[Norm]>) -> (
 }
 
 /// the key of a strict/lenient divergence on `s` (strict accepted it)
-fn attribute_divergence(s: &str) -> &'static str {
+fn attribute_divergence(model: &mut crate::model::Model, s: &str) -> &'static str {
     const GENERIC: &str = "C16:lenient-differs-from-strict";
     if s.chars().count() > 1500 {
         return GENERIC;
@@ -445,13 +456,13 @@ fn attribute_divergence(s: &str) -> &'static str {
         Some(a) => a,
         None => return GENERIC,
     };
-    let (ok, applied) = normalise(s, &a, None, None);
+    let (ok, applied) = normalise(model, s, &a, None, None);
     if !ok || applied.is_empty() {
         return GENERIC;
     }
     // necessity: the first normaliser without which the others do not explain the divergence
     for n in &applied {
-        let (still, _) = normalise(s, &a, Some(*n), Some(&applied));
+        let (still, _) = normalise(model, s, &a, Some(*n), Some(&applied));
         if !still {
             return norm_key(*n);
         }
